@@ -224,3 +224,21 @@ func (f *queuedRSTStreamFrame) send(dest *http2.Framer) error {
 func (f *queuedRSTStreamFrame) String() string {
 	return fmt.Sprintf("RSTStream[id=%d, errCode=%v]", f.streamID, f.errCode)
 }
+
+// queuedSettingsAck is the acknowledgement of the destination's SETTINGS frame. It belongs to no stream.
+type queuedSettingsAck struct{}
+
+func (f *queuedSettingsAck) StreamID() uint32 {
+	return 0
+}
+
+func (f *queuedSettingsAck) flowControlSize() int {
+	return 0
+}
+
+func (f *queuedSettingsAck) send(dest *http2.Framer) error {
+	if err := dest.WriteSettingsAck(); err != nil {
+		return fmt.Errorf("sending settings ack: %w", err)
+	}
+	return nil
+}
